@@ -1,4 +1,5 @@
 import RQ.Lemmas.Refine
+import RQ.Lemmas.DiskTree
 /-!
 # C05 — push is all-or-nothing per patch: tree = first k patches, k = names recorded
 
@@ -10,11 +11,15 @@ back in LIFO order, and collects reject files on the way — computes exactly th
 files, and a memory that stands for the same tree (for a real run; a dry run does not bother to undo).
 Exit status and `.pc/applied-patches` are functions of `k` (`pushRange`).
 
-What is *not* covered by this theorem: the flush of the memory to disk (`saveAll` …) — that part is
-tied to `RQ.Spec.pushSpec` by the correspondence run only (see DESIGN.md).
+The flush of the memory to disk (`saveAll`, `cleanAll`, reject files, backups) is `RQ.Flush.applyPatches_tree`
+(`RQ/Lemmas/SaveFlush.lean`); `C05_tree_on_disk` joins the two halves (`RQ/Lemmas/DiskTree.lean`): after
+`applyPatches` the file on disk under every name that is neither a reject file nor below `.pc` is the file
+`applyRange` has under that name after the first `k` patches.  The join needs that no name in the cache has a
+`.` component — true because every name went through `FilePatch::strip` (`cur_not_mem_stripPath`).
 -/
 namespace RQ.Abs
 open RQ RQ.Push
+open RQ.Disk (viewOf)
 
 /-- **C05 (application phase)** -/
 theorem C05_apply_refines (fs : FS) (cfg : Cfg) (range : List Series.Entry) :
@@ -59,7 +64,21 @@ theorem C05_exit_and_names (cfg : Cfg) (w : World) (range : List Series.Entry) (
     · intro hf
       simp [hf] at key
 
+/-- **C05 (end to end)**: whenever the model of the sequential driver finishes without an I/O error, the file
+found on disk under every (non-reject, non-`.pc`) name is exactly the file the abstract patch-by-patch
+specification has under that name after the first `k` patches — `k` being the number `applyPatches` returns,
+which `pushRange` records in `.pc/applied-patches`.  (Non-vacuity: `RQ.Disk.Example`.) -/
+theorem C05_tree_on_disk (w w' : World) (cfg : Cfg) (range : List Series.Entry) (k : Nat)
+    (hf : w.faultAt = none) (hdry : cfg.dryRun = false)
+    (h : applyPatches w cfg range = .ok (w', k)) :
+    ∃ t rejs, Abs.applyRange w.fs cfg range 0 [] = .ok (t, k, rejs) ∧
+      ∀ name key a, Comp.cur ∉ components name → safeKey name = some key →
+        ¬ Flush.isRejKey rejs key → ¬ Flush.isPcKey key →
+        Abs.look t w.fs name = .ok a → Flush.fileAt w'.fs key = viewOf a :=
+  Disk.C05_tree_on_disk' w w' cfg range k hf hdry h
+
 #print axioms C05_apply_refines
+#print axioms C05_tree_on_disk
 #print axioms C05_exit_and_names
 
 end RQ.Abs
